@@ -266,6 +266,36 @@ def chained (vs : List (Visitor σ)) (personal : Bool := false) : Visitor σ whe
   enter n s := if personal then chainEnterP vs n (some (n, true)) [] false s else chainEnter vs n (some (n, true)) s
   leave n s := chainLeave vs n s
 
+/-! ### chains of chains -/
+
+/-- a chain member: a leaf visitor, or a nested plain `ChainedVisitor` (no `enter` / `leave` of its own) -/
+inductive VTree (σ : Type) where
+  | leaf (v : Visitor σ)
+  | chain (ms : List (VTree σ))
+
+mutual
+/-- the leaf visitors of a chain of chains, in order -/
+def VTree.flatten : VTree σ → List (Visitor σ)
+  | .leaf v => [v]
+  | .chain ms => VTree.flattenList ms
+def VTree.flattenList : List (VTree σ) → List (Visitor σ)
+  | [] => []
+  | m :: r => m.flatten ++ VTree.flattenList r
+end
+
+mutual
+/-- the code BEFORE fix C18-W10: a nested chain is one member running `ChainedVisitor.enter` / `leave` itself -/
+def VTree.compose : VTree σ → Visitor σ
+  | .leaf v => v
+  | .chain ms => chained (VTree.composeList ms) true
+def VTree.composeList : List (VTree σ) → List (Visitor σ)
+  | [] => []
+  | m :: r => m.compose :: VTree.composeList r
+end
+
+/-- WITH fix C18-W10 (`ChainedVisitor._members`): a chain of plain chains runs its leaf visitors in place -/
+def VTree.flat (t : VTree σ) : Visitor σ := chained t.flatten true
+
 end
 
 /-! ### structural helpers (used by the specification and the driver) -/
